@@ -55,6 +55,10 @@ def rules(ctx, repo, m, meths):
     ctx.rule('R04f', 'the input is NFC-normalised before the loop', 1)
     ctx.rule('R04g', 'the module-level cache of encoder objects is keyed by every option the cached '
                      'encoder is built from', 1)
+    ctx.rule('R04l', 'the schemes `braces` and `braces-after-macro` protect exactly the replacement texts that end '
+                     'with a control word (probe texts evaluated by the checker\'s own interpreter)', 2)
+    ctx.rule('R04k', 'the partial encoder decides "this is LaTeX" with a strict token read: the walker it builds '
+                     'has tolerant_parsing=False wherever a LatexWalkerTokenParseError handler depends on it', 1)
     ctx.rule('R04j', 'an explicitly empty option (conversion_rules=[]) is not replaced by the default: no '
                      '`param or <non-empty default>` on a parameter whose "not given" value is None', 1)
     ctx.rule('R04i', 'the state of the conversion loop (position, output) is created afresh by every '
@@ -322,6 +326,32 @@ def rules(ctx, repo, m, meths):
     ctx.decide('R04b', ok, m, wh[0] if wh else u2l, 'loop runs while p.pos < len(s)',
                'the main loop is not `while p.pos < len(s)`', construct='main loop header')
 
+    # ------------------------------------------------------------ R04l (shared with C08 R08b)
+    pa_, pb_ = meths.get('_apply_protection_braces'), meths.get('_apply_protection_braces_after_macro')
+    if pa_ is None or pb_ is None:
+        raise AnalysisError('anchor vanished: _apply_protection_braces(_after_macro)')
+    from . import c08
+    c08.protection_probes(ctx, 'R04l', m, pa_, pb_)
+
+    # ------------------------------------------------------------ R04k
+    pm = repo.mod('pylatexenc.latexencode._partial_latex_encoder')
+    for q_, f_ in sorted(pm.functions.items()):
+        hs_ = [h for t_ in iter_own(f_) if isinstance(t_, ast.Try) for h in t_.handlers
+               if h.type is not None and 'TokenParseError' in unparse(h.type)]
+        ws_ = [c_ for c_ in iter_own(f_) if isinstance(c_, ast.Call) and call_name(c_) == 'LatexWalker']
+        if not hs_ or not ws_:
+            continue
+        for wc in ws_:
+            tp = kwarg(wc, 'tolerant_parsing')
+            strict = isinstance(tp, ast.Constant) and tp.value is False
+            ctx.decide('R04k', strict, pm, wc, 'the helper walker is strict, so a malformed token raises and is '
+                                               'handled by the `except LatexWalkerTokenParseError` branch',
+                       '%s handles LatexWalkerTokenParseError to tell "not LaTeX here", but builds its walker with '
+                       'tolerant_parsing=%s: a tolerant reader returns a recovery token instead of raising, the '
+                       'handler is dead and malformed input (a trailing backslash, \\begin{ without name) is '
+                       'copied through instead of being encoded' % (q_, short(tp) if tp is not None else 'the default (True)'),
+                       construct='%s: helper walker' % q_)
+
     # ------------------------------------------------------------ R04j
     n_or = 0
     for mod_ in repo.modules.values():
@@ -469,13 +499,7 @@ def rules(ctx, repo, m, meths):
                    construct='partial encoder: ' + short(c, 60))
 
     # ------------------------------------------------------------ R04f
-    norm = [s for s in u2l.body if isinstance(s, ast.Assign) and isinstance(s.value, ast.Call)
-            and call_name(s.value) == 'normalize']
-    ok = bool(norm) and isinstance(norm[0].value.args[0], ast.Constant) and \
-        norm[0].value.args[0].value == 'NFC' and unparse(norm[0].targets[0]) == unparse(norm[0].value.args[1]) \
-        and wh and norm[0].lineno < wh[0].lineno
-    ctx.decide('R04f', bool(ok), m, norm[0] if norm else u2l, "s = unicodedata.normalize('NFC', s) before the loop",
-               'the input is not NFC-normalised before the main loop', construct='NFC normalisation')
+    nfc_whole_input(ctx, 'R04f', m, u2l)
 
     # ------------------------------------------------------------ R04g
     c09._module_state(ctx, repo, 'R04g', lambda name: name.startswith('pylatexenc.latexencode'))
@@ -530,6 +554,47 @@ def _append_paths(stmts, attr):
     except TypeError:
         return False
     return all(r is None or r == 1 for r in res)
+
+
+def nfc_whole_input(ctx, rule, m, u2l):
+    """the string the main loop runs over is unicodedata.normalize('NFC', <the whole input>): the
+    value of the loop's string variable at the loop header, with locals substituted"""
+    wh_ = [w_ for w_ in iter_own(u2l) if isinstance(w_, ast.While)]
+    main_ = [w_ for w_ in wh_ if any(isinstance(x, ast.For) and is_self_attr(x.iter, '_compiled_rules')
+                                     for x in ast.walk(w_))]
+    wh_ = main_ or wh_[-1:]
+    if len(wh_) != 1 or not isinstance(wh_[0].test, ast.Compare):
+        ctx.unknown(rule, m, u2l, 'main loop not found', construct='NFC normalisation')
+        return
+    lens = [c_ for c_ in ast.walk(wh_[0].test) if isinstance(c_, ast.Call) and call_name(c_) == 'len' and c_.args
+            and isinstance(c_.args[0], ast.Name)]
+    if not lens:
+        ctx.unknown(rule, m, wh_[0], 'the loop does not compare with len(<string>)', construct='NFC normalisation')
+        return
+    svar = lens[0].args[0]
+    param = u2l.args.args[1].arg
+    try:
+        cases = symex.Walker(is_sink=lambda n: n is svar, sink_types=(ast.Name,),
+                             pure=('normalize', 'unicode_str', 'str', 'unicode')).run(u2l)
+    except symex.TooManyPaths as e:
+        ctx.unknown(rule, m, u2l, str(e), construct='NFC normalisation')
+        return
+    why = None if cases else 'the loop string is never reached'
+    for cs in cases:
+        v = cs.sub
+        if not (isinstance(v, ast.Call) and call_name(v) == 'normalize' and len(v.args) == 2
+                and isinstance(v.args[0], ast.Constant) and v.args[0].value == 'NFC'):
+            why = 'the loop runs over %s, which is not unicodedata.normalize(\'NFC\', <input>)' % short(v, 80)
+            break
+        inner = v.args[1]
+        partial = [x for x in ast.walk(inner) if isinstance(x, ast.Subscript)]
+        if partial or not any(isinstance(x, ast.Name) and x.id == param for x in ast.walk(inner)):
+            why = 'only %s is normalised, not the whole input' % short(inner, 60)
+            break
+    ctx.decide(rule, why is None, m, wh_[0], "the loop runs over unicodedata.normalize('NFC', <whole input>)",
+               'NFC normalisation: %s: a base letter and a combining mark that are split by the cut (ASCII '
+               'letter + combining accent) are not composed, so rules for the precomposed character do not '
+               'apply and the round trip does not return the NFC string' % why, construct='NFC normalisation')
 
 
 def ord_pred_table(t, probes):
